@@ -391,10 +391,13 @@ def main(seed, tier):
     ok_pool = [g for g in grammars if g["id"] in accepted]
     hv = Rng(seed, "c10/hv")
     checked = 0
+    harness_mismatch = []
     for g in hv.sample(ok_pool, min(len(ok_pool), 4 if quick else 20)):
         sh = hv.choice(gram.SHELLS)
         if not harness_matches_binary(g, sh):
-            raise HarnessError("history harness output differs from the complgen binary for %s/%s: the harness misrepresents main.rs" % (g["name"], sh))
+            # either the harness misrepresents main.rs (harness error) or two different executables of the same library disagree,
+            # which is what address- or randomness-dependent output looks like; decided after triage: violations explain it
+            harness_mismatch.append("%s/%s" % (g["name"], sh))
         checked += 1
     # histories
     nhist = 60 if quick else 1500
@@ -422,6 +425,9 @@ def main(seed, tier):
         miri = c10miri.run(seed, ok_pool)
         violations.extend(miri.pop("violations"))
     new, known = runner.triage("C10", seed, violations, minimise, lambda p: reproduce(p)[0])
+    if harness_mismatch and not new and not known:
+        raise HarnessError("history harness output differs from the complgen binary for %s although no nondeterminism was found: "
+                           "the harness misrepresents main.rs" % harness_mismatch[:3])
     consumed = ambient.get("getrandom", 0) + ambient.get("getentropy", 0)
     coverage = {
         "evaluations": runs + hruns,
@@ -444,6 +450,7 @@ def main(seed, tier):
         "ambient_sources_consulted": dict(sorted(ambient.items())),
         "randomness_delivered_and_consumed_calls": consumed,
         "harness_validated_against_binary": checked,
+        "harness_vs_binary_mismatches": harness_mismatch,
         "miri": miri,
         "runs_per_hour": int((runs + hruns) / max(t.s(), 0.001) * 3600),
         "known_findings_matched": known,
